@@ -29,10 +29,9 @@ package bufmodule
 //@ trusted pure interface Commit
 // Documented on CommitProvider: "If there is no error, the length of the Commits returned will match the length of the ModuleKeys."
 //@ trusted func (CommitProvider) GetCommitsForModuleKeys(ctx, moduleKeys) (r, err)
-//@   modifies heap
 //@   ensures err == nil ==> len(r) == len(moduleKeys)
 //
-//@ func (a *addedModule) OpaqueID() (r)
+//@ inline func (a *addedModule) OpaqueID() (r)
 //@   property C10
 //@   ensures a.remoteModuleKey != nil ==> r == a.remoteModuleKey.FullName().String()
 //@   ensures a.remoteModuleKey == nil ==> r == a.localModule.OpaqueID()
@@ -46,7 +45,6 @@ package bufmodule
 // Among candidates with one OpaqueID: a local module beats a remote (pinned) one; the first local one in input order wins.
 //@ func selectAddedModuleForOpaqueIDIgnoreTargeting(ctx, commitProvider, addedModules) (r, err)
 //@   property C10
-//@   modifies heap
 //@   reveal h_in
 //@   ensures local-first: forall i int :: 0 <= i && i < len(addedModules) && old(addedModules[i].localModule) != nil && (forall j int :: 0 <= j && j < i ==> old(addedModules[j].localModule) == nil) ==> err == nil && r == addedModules[i]
 //@   ensures local-beats-remote: (exists i int :: 0 <= i && i < len(addedModules) && old(addedModules[i].localModule) != nil) ==> err == nil && old(r.localModule) != nil
@@ -58,7 +56,6 @@ package bufmodule
 // Remote-only candidates: the result is one of the candidates (which one is decided by commit create time: not covered).
 //@ func selectRemoteAddedModuleForOpaqueIDIgnoreTargeting(ctx, commitProvider, addedModules) (r, err)
 //@   property C10
-//@   modifies heap
 //@   reveal h_in
 //@   ensures member: err == nil ==> h_in(addedModules, len(addedModules), r)
 //@   ensures single: len(addedModules) == 1 && old(addedModules[0].remoteModuleKey) != nil ==> err == nil && r == addedModules[0]
@@ -74,18 +71,21 @@ package bufmodule
 //@   property C10
 //@   callback pure f
 //@   ensures groups: forall k K :: k in r ==> len(r[k]) > 0 && (forall j int :: 0 <= j && j < len(r[k]) ==> (exists jj int :: 0 <= jj && jj < len(s) && s[jj] == r[k][j]) && f(r[k][j]) == k)
+// (elements whose key is the zero value of K are dropped by the code: `if k != zero`)
+//@   ensures complete: forall i int :: 0 <= i && i < len(s) && f(s[i]) != zero(f(s[i])) ==> f(s[i]) in r && (exists j int :: 0 <= j && j < len(r[f(s[i])]) && r[f(s[i])][j] == s[i])
 //@   loop 0 invariant forall k K :: k in m ==> len(m[k]) > 0 && (forall j int :: 0 <= j && j < len(m[k]) ==> (exists jj int :: 0 <= jj && jj < $i && s[jj] == m[k][j]) && f(m[k][j]) == k)
+//@   loop 0 invariant forall i int :: 0 <= i && i < $i && f(s[i]) != zero(f(s[i])) ==> f(s[i]) in m && (exists j int :: 0 <= j && j < len(m[f(s[i])]) && m[f(s[i])][j] == s[i])
 //
 // Targets beat non-targets, then local beats remote, then input order.
 //@ func selectAddedModuleForOpaqueID(ctx, commitProvider, addedModules) (r, err)
 //@   property C10
-//@   modifies heap
 //@   reveal h_in
 //@   ensures target-local-first: forall i int :: 0 <= i && i < len(addedModules) && old(addedModules[i].isTarget) && old(addedModules[i].localModule) != nil && (forall j int :: 0 <= j && j < i ==> !(old(addedModules[j].isTarget) && old(addedModules[j].localModule) != nil)) ==> err == nil && r == addedModules[i]
 //@   ensures target-beats-non-target: err == nil && (exists i int :: 0 <= i && i < len(addedModules) && old(addedModules[i].isTarget)) ==> old(r.isTarget)
 //@   ensures no-target-local-first: (forall i int :: 0 <= i && i < len(addedModules) ==> !old(addedModules[i].isTarget)) ==> (forall i int :: 0 <= i && i < len(addedModules) && old(addedModules[i].localModule) != nil && (forall j int :: 0 <= j && j < i ==> old(addedModules[j].localModule) == nil) ==> err == nil && r == addedModules[i])
 //@   ensures only-target-selected: forall i int :: 0 <= i && i < len(addedModules) && old(addedModules[i].isTarget) && (forall j int :: 0 <= j && j < len(addedModules) && j != i ==> !old(addedModules[j].isTarget)) ==> err == nil && r == addedModules[i]
 //@   ensures member: err == nil ==> h_in(addedModules, len(addedModules), r)
+//@   ensures local-kept-unless-remote-target: err == nil && (exists i int :: 0 <= i && i < len(addedModules) && addedModules[i].localModule != nil) ==> r.localModule != nil || r.isTarget
 //@   canary ensures err != nil
 // several targets: the first local one among the targets is the first local target of the input
 //@   assert before "return selectAddedModuleForOpaqueIDIgnoreTargeting(ctx, commitProvider, targetAddedModules)" chain: forall a int :: 0 <= a && a < len(targetAddedModules) && targetAddedModules[a].localModule != nil && (forall b int :: 0 <= b && b < a ==> targetAddedModules[b].localModule == nil) ==> (exists i int :: 0 <= i && i < len(addedModules) && addedModules[i] == targetAddedModules[a] && addedModules[i].isTarget && (forall k int :: 0 <= k && k < i ==> !(addedModules[k].isTarget && addedModules[k].localModule != nil)))
@@ -263,3 +263,9 @@ package bufmodule
 //@   property C10
 //@   modifies heap
 //@   ensures r != nil
+//
+// (added by ca-A2) Resolution of commit keys by a provider: like GetCommitsForModuleKeys, providers live outside
+// bufmodule and do not touch modelled state. Documented: "If there is no error, the length of the Commits returned will
+// match the length of the CommitKeys."
+//@ trusted func (CommitProvider) GetCommitsForCommitKeys(ctx, commitKeys) (r, err)
+//@   ensures err == nil ==> len(r) == len(commitKeys)
